@@ -53,6 +53,8 @@ Definition Cy (first time period : Z) (chans : list (list Z * bool)) (prims : li
   (OCycle (mkblk first time period chans) prims, OSec recs).
 Definition CyX (first time period : Z) (chans : list (list Z * bool)) (prims : list (list Z)) : op * obs :=
   (OCycle (mkblk first time period chans) prims, OCrash).
+Definition Rs (rep : list (Z * Z)) (cnt coup : Z) : op * obs := (ORestart, ORep rep cnt coup).
+Definition RsX : op * obs := (ORestart, OCrash).
 (* an edit whose answer could not be observed *)
 Definition EdX (e : edit) : op * obs := (OEdit e, OCrash).
 Definition mk (lancero : bool) (n npre nsamp : Z) (init : list (Z * Z)) (h : list (op * obs)) : case :=
